@@ -22,7 +22,16 @@ func ResolveTCPAddr(network, address string) (*net.TCPAddr, error) {
 // Fake, when set, supplies the listener for an address.
 var Fake func(addr string) net.Listener
 
+// FakeErr, when set and returning an error for an address, makes listening on it fail (the
+// address is in use).
+var FakeErr func(addr string) error
+
 func ListenTCP(network string, laddr *net.TCPAddr) (net.Listener, error) {
+	if FakeErr != nil {
+		if err := FakeErr(laddr.String()); err != nil {
+			return nil, err
+		}
+	}
 	if Fake != nil {
 		if l := Fake(laddr.String()); l != nil {
 			return l, nil
@@ -32,6 +41,11 @@ func ListenTCP(network string, laddr *net.TCPAddr) (net.Listener, error) {
 }
 
 func Listen(network, address string) (net.Listener, error) {
+	if FakeErr != nil {
+		if err := FakeErr(address); err != nil {
+			return nil, err
+		}
+	}
 	if Fake != nil {
 		if l := Fake(address); l != nil {
 			return l, nil
